@@ -184,6 +184,20 @@ def run_case(case, rec):
             esc = max(float(np.max(np.abs(e_big))), 1e-3 * vsc)
             rec.check("grid_response_block_independence", float(np.max(np.abs(np.asarray(e_big) - np.asarray(e_small)))) / esc, 1e-9,
                       mechanism="gradients:blocking-dependence[excsum,%s]" % btag)
+    # call history: the force must not depend on what else the calculator evaluated between the SCF and the gradient
+    # (ks.energy_tot(dm=...), ks.get_veff(dm=...) with another density) - added after a seeded reuse of the generator's cached
+    # densities in the unrestricted no-response driver
+    try:
+        dm_other = ks.get_init_guess(key="minao")
+        ks.get_veff(dm=dm_other)
+        g2 = ks.nuc_grad_method()
+        g2.grid_response = cfg["gr"]
+        g2.verbose = 0
+        F2 = np.asarray(g2.kernel())
+        rec.check("force_independent_of_history", float(np.max(np.abs(F2 - F))), 1e-8,
+                  mechanism="gradients:history-dependence[%s]" % mechtag, detail={"F_first": F.tolist(), "F_after_other_density": F2.tolist()})
+    except NotImplementedError:
+        pass
     coords = mol.atom_coords()
     comps = [(a, x) for a in range(mol.natm) for x in range(3)]
     order = rng.permutation(len(comps))
